@@ -1,4 +1,5 @@
 """Per-property job plans, coverage requirements and evidence rules."""
+import os
 import re
 
 SNDBUFS = [None, 4096, 8192, 16384, 65536]  # None = the real system value
@@ -508,6 +509,73 @@ def c17_require(agg):
     return need
 
 
+# ------------------------------------------------------------------ C18
+
+ASAN = "halt_on_error=1:abort_on_error=1:detect_leaks=%d:malloc_fill_byte=202:max_malloc_fill_size=1073741824:detect_stack_use_after_return=0"
+
+
+def c18_plan(tier, seed):
+    q = tier == "quick"
+    out = []
+
+    def asan(family, batches, nbatch, env, opts, leaks=1):
+        for b in batches:
+            e = {"ASAN_OPTIONS": ASAN % leaks, "IPCMON_POISON": "1"}
+            e.update(env(b) if callable(env) else env)
+            out.append({"variant": "os-asan", "family": family, "batch": b, "nbatch": nbatch, "env": e, "opts": dict(opts), "timeout": 3000})
+
+    sb = lambda b: ({"IPCMON_SNDBUF": SNDBUFS[b % len(SNDBUFS)]} if SNDBUFS[b % len(SNDBUFS)] else {})
+    asan("c01", range(5) if q else range(15), 15, sb, {"cap": 1 << 20 if q else 4 << 20, "huge": 0})
+    asan("c04", range(3) if q else range(9), 9, lambda b: {"IPCMON_SNDBUF": [8192, 16384, 8192][b % 3]}, {"cases": 25 if q else 300}, leaks=0)
+    asan("c05", range(2) if q else range(6), 6, {}, {"cases": 25 if q else 300, "huge": 0, "cap": 1 << 18})
+    asan("c13", [2, 5, 9] if q else range(10), 10, {"IPCMON_SNDBUF": 8192}, {} if q else {"all": 1})
+    asan("c15", [1, 4, 7] if q else range(10), 10, {"IPCMON_SNDBUF": 8192}, {})
+    asan("c12", [5, 13] if q else range(16), 16, {"IPCMON_SNDBUF": 8192}, {"max_packets": 2 if q else 4}, leaks=0)
+    asan("c18", [0], 1, {}, {"rounds": 6 if q else 60})
+    out += jobs("os-debug", "c18", 1, None, {"rounds": 12 if q else 150}, timeout=3000)
+    out += jobs("memfd-debug", "c18", 1, None, {"rounds": 6 if q else 60}, timeout=3000)
+    if not q:
+        vg = ["valgrind", "-q", "--error-exitcode=99", "--suppressions=%s/memcheck.supp" % os.path.dirname(os.path.abspath(__file__)),
+              "--errors-for-leak-kinds=none", "--leak-check=no"]
+        for fam, nb, env, opts in (("c01", 5, sb, {"cap": 1 << 18, "huge": 0}), ("c05", 2, {}, {"cases": 30, "huge": 0, "cap": 1 << 16}),
+                                   ("c13", 2, {"IPCMON_SNDBUF": 8192}, {}), ("c18", 1, {}, {"rounds": 4})):
+            for b in range(nb):
+                e = dict(env(b) if callable(env) else env)
+                out.append({"variant": "os-release", "family": fam, "batch": b, "nbatch": max(nb, 10) if fam == "c13" else nb, "env": e, "opts": dict(opts),
+                            "timeout": 3000, "wrap": vg, "tool": "memcheck"})
+    return out
+
+
+def c18_post(agg, results, workdir, inconclusive):
+    for v in agg["violations"]:
+        if not v["sig"].startswith("C18:"):
+            v["sig"] = "C18:via-" + v["sig"]
+    tools = {}
+    for job, recs, rc, err, wall in results:
+        t = job.get("tool") or ("asan" if job["variant"] == "os-asan" else "ub_checks")
+        tools[t + ":" + job["family"]] = tools.get(t + ":" + job["family"], 0) + 1
+        if job.get("tool") == "memcheck" and rc == 99 and not job.get("sanitizer"):
+            agg["violations"].append({"t": "viol", "sig": "C18:memcheck-error:%s" % job["family"], "detail": {"stderr_tail": err[-1500:].splitlines()},
+                                      "replay": {"family": job["family"], "seed": job["seed"], "batch": job["batch"], "nbatch": job["nbatch"], "tier": job["tier"],
+                                                 "case": None, "variant": job["variant"], "opts": job.get("opts", {}), "env": job.get("env", {})}})
+    agg["stats"]["batches_by_tool_and_generator"] = tools
+    agg["stats"]["sanitizer_reports"] = len([v for v in agg["violations"] if "sanitizer-report" in v["sig"] or "memcheck" in v["sig"]])
+
+
+def c18_require(agg):
+    st = agg["stats"]
+    need = []
+    t = st.get("batches_by_tool_and_generator", {})
+    for g in ("asan:c01", "asan:c04", "asan:c05", "asan:c12", "asan:c13", "asan:c15", "asan:c18", "ub_checks:c18"):
+        if t.get(g, 0) < 1:
+            need.append("no batch of %s" % g)
+    if st.get("mon_poisoned_buffers", 0) < 1000:
+        need.append("fewer than 1000 poisoned receive buffers")
+    if st.get("zero_length_rounds", 0) < 5:
+        need.append("fewer than 5 zero-length region rounds")
+    return need
+
+
 # ------------------------------------------------------------------ C19
 
 def c19_plan(tier, seed):
@@ -561,6 +629,24 @@ NOTES = ("Runtime monitoring and sanitizers. ./check <id> rebuilds the harness (
 NOT_APPLICABLE = {}
 
 PROPS = {
+    "C18": {
+        "plan": c18_plan,
+        "post": c18_post,
+        "require": c18_require,
+        "level": "exploration",
+        "level_text": "Exploration under sanitizers: the shape generators of C01 (lengths around every buffer boundary, five reported send-buffer sizes), C04 (0..63 attachments, "
+                      "multi-hop), C05 (regions), C12 (truncated transfers after a sender crash), C13 (ENOBUFS retries) and C15 (attachment counts) run in an "
+                      "AddressSanitizer build of the crate (halt_on_error, LeakSanitizer where the generator does not leak on purpose, malloc fill 0xCA) with the "
+                      "interposer chained so that every receive buffer is poisoned before the kernel fills it; their payload oracles check exact lengths and contents. "
+                      "Zero-length and odd-length regions are exercised at platform and ipc level in debug builds (std ub_checks abort on null/unaligned raw slices) "
+                      "and under ASan; every munmap is paired with its mmap by the interposer's ledger. Thorough adds valgrind memcheck on the release build without "
+                      "poisoning (definedness of received bytes, one exact-signature suppression for sender-side cmsg padding).",
+        "level_note": "ASan is a red-zone tool: overflows that stay inside one allocation or jump past the red zones, and anything inside mmap'ed regions, are not seen by it; "
+                      "the payload oracles and the mmap ledger cover part of that gap. Miri cannot execute the OS transport (sendmsg).",
+        "technique": "sanitizers: AddressSanitizer + LeakSanitizer build with LD_PRELOAD receive-buffer poisoning, std ub_checks in debug builds, mmap/munmap ledger, valgrind memcheck (thorough)",
+        "rule": "case = one generated message/region/crash/fault shape of the reused generators executed under a sanitizer; distinct = the generator's own shape key; all are non-trivial",
+        "assumptions": ["the sender-side control-buffer padding reported by memcheck is benign and suppressed by exact signature"],
+    },
     "C17": {
         "plan": c17_plan,
         "require": c17_require,
